@@ -34,10 +34,16 @@ MANIFEST = {
             'every run; the codec engine runs model and real writer/reader on the same entries (bytes, statuses, read-back) for '
             'ustar/odc/newc, and for all 17 readable writable formats evaluates the property predicate (status OK => read-back '
             'equals norm) on the real write->read, with every numeric field at max, max+1, 2^31, 2^32, 2^56, 2^62, 2^63-1, '
-            'negative, every string field at limit and limit+1 and with invalid UTF-8, every file type, missing mandatory fields.',
+            'negative, every string field at limit and limit+1 and with invalid UTF-8, every file type, missing mandatory fields. '
+            'Refusal sequences: for every format and every kind of entry some writer refuses (no / empty pathname, no type, each '
+            'special type, names of 16..1100 bytes, trailing slash, 300-byte component, invalid UTF-8, "..", out-of-range ids, '
+            'times, inode, link count, device, long link targets, no size) the sequence accepted odd-sized member, candidate, '
+            'accepted member (, candidate, accepted member) must read back as exactly the accepted entries. The optional metadata '
+            '(atime/ctime/birth time, sparse map, ACLs, xattrs) is compared on the formats that carry it.',
     'note': 'partial: proof for formatters and the ustar / cpio odc / cpio newc headers; spec-level differential for the other '
             'formats. Seven writer defects were repaired in /repo (cpio odc/newc overflow reporting, ar and warc refused-entry '
-            'state, gnutar orphan long-name header x2, xar short-body loop); 29 further deviations are recorded in '
+            'state, gnutar orphan long-name header x2, xar short-body loop; later: pax entry-name buffer, zip empty pathname, tar reader '
+            'mode bits under pax ACLs, pax atime/ctime of 0, xar reader endless loop); 32 further deviations are recorded in '
             'known_findings.json and reported as KNOWN-FINDING.',
     'technique': 'Lean 4 proof (field-table lemma for disjoint header fields, digit-loop inductions, omega) + extraction of '
                  'layouts + model/C differential correspondence + Lean-evaluated property predicate on the C output',
